@@ -111,6 +111,7 @@ def case_st(draw, name=None):
     elif form == "power":
         case["k"] = draw(st.sampled_from([0, 1, 2, 3, 0.5, -1.0, 2.0] if dt.startswith("int") else
                                          [-2, -1, 0, 1, 2, 3, 0.5]))
+        case["k_as"] = draw(st.sampled_from(["py", "py", "npf", "nd0"]))
     elif form == "take":
         n = vs.nelem(shape)
         case["idx"] = draw(st.lists(st.integers(0, n - 1), min_size=0, max_size=5))
@@ -187,7 +188,12 @@ def _call(func, case, A, B, raw):
     if form == "int2":
         return func(A, case["n"])
     if form == "power":
-        return func(A, case["k"])
+        k = case["k"]
+        if case.get("k_as") == "npf":
+            k = np.float64(k)
+        elif case.get("k_as") == "nd0":
+            k = np.array(k)
+        return func(A, k)
     if form == "take":
         idx = np.array(case["idx"], dtype=np.int64)
         if case["idx_as"] == "Array" and not raw:
@@ -232,6 +238,9 @@ def numpy_fn(case, r):
     if assign:
         r.label("assign_" + assign)
     r.nontrivial(assign in ("compat", "incompat", "bare_nd", "bare_num") or kwform or dta != "float64")
+    if form == "power" and case.get("k_as") == "nd0" and um.is_dimensionless(au) and abs(au[0] - 1) > 0:
+        r.label("skipped_scaled_dimensionless_ndexp")
+        return
     snap_a = (a._array.tobytes(), str(a.unit))
     snap_b = (b._array.tobytes(), str(b.unit)) if isinstance(b, osyris.Array) else None
 
@@ -403,7 +412,7 @@ def _describe(case):
     if "b" in case:
         b = case["b"]
         s += ", " + (repr(b["v"]) if b["k"] == "num" else f"{b['k']}:{b['dtype']}{b['shape']}[{b.get('unit', '-')}]")
-    for k in ("q", "n", "k"):
+    for k in ("q", "n", "k", "k_as"):
         if k in case:
             s += f", {k}={case[k]}"
     if case.get("kw"):
@@ -427,6 +436,9 @@ def _table_cases():
                 base["n"] = 2
             if form == "power":
                 base["k"] = 2
+                for kas in ("npf", "nd0"):
+                    out.append(dict(base, k_as=kas))
+                    out.append(dict(base, k=0.5, k_as=kas))
             if form == "take":
                 base.update(idx=[0, 5, 5], idx_as="nd")
             if form == "compress":
